@@ -74,6 +74,21 @@ def run_case(case, drv):
         res.fail(f"{form}:zero-set", f"x={x}: QUBO value {fs(Fraction(int(vals[i0]), d))}, satisfies the constraints: {bool(B.feasible[i0])}")
     if (int(vals.min()) == 0) != bool(B.feasible.any()):
         res.fail(f"{form}:min-zero", f"minimum {fs(Fraction(int(vals.min()), d))} but feasible set non-empty = {bool(B.feasible.any())}")
+    # zero-energy assignments must be valid solutions of the routing problem itself (independent statement of the formulation's
+    # constraints: depot-route decomposition for arc-based instances with positive customer-to-customer times)
+    if form == "arc" and n <= 14 and not res.failures:
+        from .c05 import decompose
+        g = VU.graph_of(o)
+        pos = all(a[4] > 0 for a in g["arcs"] if a[0] != 0 and a[1] != 0) and not any(a[0] == 0 and a[1] == 0 for a in g["arcs"])
+        if pos:
+            var = [(int(i), F(s_), int(j), F(t)) for (i, s_, j, t) in o.var_mapping]
+            for i0 in range(len(B.X)):
+                sel = [var[k2] for k2 in range(n) if B.X[i0][k2]]
+                valid = decompose(sel, len(g["nodes"])) is not None
+                if bool(zero[i0]) != valid:
+                    res.fail("arc:zero-energy-vs-routes", f"x selecting {core.jsonable(sel)} has feasibility-QUBO value "
+                                                          f"{fs(Fraction(int(vals[i0]), d))} but is {'a' if valid else 'not a'} valid set of depot routes")
+                    break
     nf = int(B.feasible.sum())
     res.nontrivial = n >= 2 and nf >= 1 and nf < len(B.feasible)
     res.features += [f"n:{n}", f"feasible_set:{'empty' if nf == 0 else 'nonempty'}"]
